@@ -65,7 +65,7 @@ def convert_version_to_int(version):
         if isinstance(version, tuple):
             return functools.reduce(lambda x, y: (x * 1000) + y, version)
     except Exception as ex:
-        msg = _("Version %s is invalid.") % version
+        msg = _("Version %s is invalid.") % (version,)
         raise ValueError(msg) from ex
 
 
